@@ -112,8 +112,9 @@ def _batch(args):
         "runs": 0, "nontrivial": 0, "digests": set(), "faults": Counter(),
         "probes": Counter(), "states": set(), "sim_time": 0.0, "steps": 0,
         "violations": [], "samples": [], "errors": [], "fallbacks": 0,
-        "first": start,
+        "first": start, "known_seen": Counter(),
     }
+    known = load_known(mod.ID)
     for i in range(start, start + count):
         seed = derive(base_seed, mod.ID, i)
         try:
@@ -137,6 +138,11 @@ def _batch(args):
                 agg["samples"].append({"run": i, "seed": seed, "config": _jsonable(sim.config),
                                        "trace": sim.trace[:60]})
         if v is not None:
+            e = match_known(known, v.signature)
+            if e is not None:
+                # a listed known finding ends this run only; the batch goes on
+                agg["known_seen"][e["signature"]] += 1
+                continue
             agg["violations"].append((i, seed, v.signature, v.detail[:600], list(sim.tape.rec)))
             if len(agg["violations"]) >= 4:
                 break
@@ -364,12 +370,9 @@ def search(mod, tier, base_seed, workers=None, budget_s=None, max_runs=None, qui
                 if len(tot["samples"]) < 4:
                     tot["samples"].extend(agg["samples"])
                 tot["errors"].extend(agg["errors"])
+                known_seen.update(agg["known_seen"])
                 for viol in agg["violations"]:
-                    e = match_known(known, viol[2])
-                    if e is not None:
-                        known_seen[e["signature"]] += 1
-                    else:
-                        violations.append(viol)
+                    violations.append(viol)
             if violations or tot["errors"]:
                 stop = True
             over_budget = (now - t0) > budget and next_start >= floor
